@@ -842,3 +842,40 @@ func init() {
 		return nil
 	})
 }
+
+func init() {
+	reg("(time.Time).Format", func(fr *frame, args []Value) Value { return fr.e.strConst("<time>") })
+	reg("(time.Time).String", func(fr *frame, args []Value) Value { return fr.e.strConst("<time>") })
+	// runtime.Caller: the harness declares the source position (natively the
+	// real position of the call site is used)
+	reg(rtPkgPath+".CallerFile", func(fr *frame, args []Value) Value {
+		fr.e.callerFile = args[0].(Str)
+		fr.e.callerLine = args[1].(*Term)
+		return nil
+	})
+	reg("runtime.Caller", func(fr *frame, args []Value) Value {
+		e := fr.e
+		if e.callerLine == nil {
+			return Tuple{e.tt.BV(64, 0), e.strConst("/repo/unknown/file.go"), e.tt.BV(64, 1), e.tt.True}
+		}
+		return Tuple{e.tt.BV(64, 0), e.callerFile, e.callerLine, e.tt.True}
+	})
+}
+
+func init() {
+	// context.WithValue without the reflectlite comparability check
+	reg("context.WithValue", func(fr *frame, args []Value) Value {
+		e := fr.e
+		parent := args[0].(Iface)
+		if parent.t == nil {
+			panic(targetPanic{e.runtimeErrorPlain("cannot create context from nil parent"), "context.WithValue"})
+		}
+		vt := e.namedType("context", "valueCtx")
+		st := e.zero(vt).(Struct)
+		setField(st, vt, "Context", parent)
+		setField(st, vt, "key", args[1])
+		setField(st, vt, "val", args[2])
+		var cell Value = st
+		return Iface{t: types.NewPointer(vt), v: &cell}
+	})
+}
